@@ -173,6 +173,7 @@ func (g *Generator) generateStructSchemaWithRefs(t reflect.Type) *openapi3.Schem
 
 		// Generate field schema with $ref support.
 		fieldSchema := g.generateFieldSchemaWithRefs(field.Type, field)
+		fieldSchema = quotedFieldSchema(field, fieldSchema)
 
 		if err := parseJSONSchemaTags(field.Tag, fieldSchema); err != nil {
 			continue
@@ -198,6 +199,9 @@ func (g *Generator) generateFieldSchemaWithRefs(t reflect.Type, field reflect.St
 	// Dereference pointers.
 	for t.Kind() == reflect.Ptr {
 		t = t.Elem()
+	}
+	if encoded := encodedTypeSchema(t); encoded != nil {
+		return encoded
 	}
 
 	switch t.Kind() {
@@ -249,6 +253,9 @@ func (g *Generator) generateTypeSchemaWithRefs(t reflect.Type) *openapi3.Schema 
 	// Dereference pointers.
 	for t.Kind() == reflect.Ptr {
 		t = t.Elem()
+	}
+	if encoded := encodedTypeSchema(t); encoded != nil {
+		return encoded
 	}
 
 	switch t.Kind() {
@@ -358,6 +365,9 @@ func convertTypeWithDepthLimit(t reflect.Type, visited map[reflect.Type]*openapi
 		schema.Description = "Depth limit reached"
 		return schema
 	}
+	if encoded := encodedTypeSchema(t); encoded != nil {
+		return encoded
+	}
 
 	switch t.Kind() {
 	case reflect.Struct:
@@ -421,6 +431,7 @@ func convertStructToSchemaWithDepthLimit(t reflect.Type, visited map[reflect.Typ
 			// Different type: continue with depth-limited conversion to avoid infinite loops.
 			fieldSchema = convertTypeWithDepthLimit(fieldType, visited, depth-1)
 		}
+		fieldSchema = quotedFieldSchema(field, fieldSchema)
 
 		if err := parseJSONSchemaTags(field.Tag, fieldSchema); err != nil {
 			continue
@@ -453,6 +464,9 @@ func convertReflectTypeToSchemaWithVisited(t reflect.Type, visited map[reflect.T
 	originalType := t
 	for t.Kind() == reflect.Ptr {
 		t = t.Elem()
+	}
+	if encoded := encodedTypeSchema(t); encoded != nil {
+		return encoded
 	}
 
 	// Only check for cycles with struct types, as primitive types should always create new instances
@@ -517,6 +531,7 @@ func convertStructToSchemaWithVisited(t reflect.Type, visited map[reflect.Type]*
 
 		// Convert field type to schema
 		fieldSchema := convertReflectTypeToSchemaWithVisited(field.Type, visited)
+		fieldSchema = quotedFieldSchema(field, fieldSchema)
 
 		// Parse jsonschema tags and apply to schema
 		if err := parseJSONSchemaTags(field.Tag, fieldSchema); err != nil {
@@ -830,6 +845,9 @@ func (g *NestedRefGenerator) generateSchema(t reflect.Type) *openapi3.Schema {
 	for t.Kind() == reflect.Ptr {
 		t = t.Elem()
 	}
+	if encoded := encodedTypeSchema(t); encoded != nil {
+		return encoded
+	}
 
 	// Primitive types: always expand, never use $ref
 	switch t.Kind() {
@@ -919,6 +937,7 @@ func (g *NestedRefGenerator) generateStructSchema(t reflect.Type) *openapi3.Sche
 
 		// Recursively generate field schema
 		fieldSchema := g.generateSchema(field.Type)
+		fieldSchema = quotedFieldSchema(field, fieldSchema)
 
 		// Restore path
 		g.currentPath = originalPath
